@@ -363,7 +363,47 @@ def regexify(rng, s):
     return rng.choice(["(", "*x", "[a", "a**", "x)", "\\"])   # invalid patterns
 
 
+def gen_index_leaf(rng, schema, ds, table):
+    """a leaf of one of the shapes the host/service/primary-key index pre-selection handles"""
+    hosts = dataset_values(ds, "hosts", "name") or ["web1"]
+    hgroups = dataset_values(ds, "hostgroups", "name") or ["linux"]
+    sgroups = dataset_values(ds, "servicegroups", "name") or ["http"]
+    h = rng.choice(hosts)
+    if table in ("hosts", "services"):
+        col = "name" if table == "hosts" else "host_name"
+        gcol = "groups" if table == "hosts" else "host_groups"
+        r = rng.random()
+        if r < 0.25:
+            return "%s = %s" % (col, h if rng.random() < 0.8 else mutate_case(rng, h))
+        if r < 0.40:
+            return "%s =~ %s" % (col, mutate_case(rng, h))
+        if r < 0.55:
+            return "%s %s %s" % (col, rng.choice(["~", "~~"]), regexify(rng, mutate_case(rng, h) if rng.random() < 0.5 else h))
+        if r < 0.75:
+            return "%s >= %s" % (gcol, rng.choice(hgroups))
+        if r < 0.88:
+            g = rng.choice(hgroups)
+            return "%s %s %s" % (gcol, rng.choice(["~", "~~"]), regexify(rng, mutate_case(rng, g) if rng.random() < 0.5 else g))
+        if table == "services":
+            if rng.random() < 0.7:
+                return "groups >= %s" % rng.choice(sgroups)
+            return "groups %s %s" % (rng.choice(["~", "~~"]), regexify(rng, rng.choice(sgroups)))
+        return "%s = %s" % (col, h)
+    keys = key_columns(table)
+    if len(keys) == 1:
+        vals = dataset_values(ds, table, keys[0])
+        v = rng.choice(vals) if vals else "x"
+        v = fmt_num(v) if isinstance(v, (int, float)) else v
+        op = rng.choice(["=", "=", "=~"])
+        return "%s %s %s" % (keys[0], op, mutate_case(rng, v) if op == "=~" else v)
+    return None
+
+
 def gen_leaf(rng, schema, ds, table, cols, opts):
+    if rng.random() < opts.get("index_p", 0.2):
+        leaf = gen_index_leaf(rng, schema, ds, table)
+        if leaf:
+            return leaf
     col = rng.choice(cols)
     dt = col["dtype"]
     name = col["name"]
@@ -522,13 +562,24 @@ def gen_extra_headers(rng, schema, ds, table, cols, opts):
                 lines.append(("Sort: %s %s %s" % (c["name"], rng.choice(CV_NAMES + ["site"]), d or "asc")).rstrip())
             else:
                 lines.append(("Sort: %s %s" % (c["name"], d)).rstrip())
-        # the table's default order, to trigger the per-backend early cut
-        if rng.random() < 0.3:
+        # the table's default order (triggers the per-backend early cut) and near misses of it
+        r = rng.random()
+        if r < 0.45 and table in ("hosts", "services"):
             lines = [l for l in lines if not l.startswith("Sort:")]
-            if table == "hosts":
-                lines.append("Sort: name asc")
-            elif table == "services":
-                lines += ["Sort: host_name asc", "Sort: description asc"]
+            keys = [["name", "asc"]] if table == "hosts" else [["host_name", "asc"], ["description", "asc"]]
+            if r >= 0.25:
+                m = rng.choice(["flip", "flip_last", "swap", "extra", "drop"])
+                if m == "flip":
+                    rng.choice(keys)[1] = "desc"
+                elif m == "flip_last":
+                    keys[-1][1] = "desc"
+                elif m == "swap":
+                    keys.reverse()
+                elif m == "extra":
+                    keys.append([rng.choice(["state", "plugin_output"]), rng.choice(["asc", "desc"])])
+                elif m == "drop" and len(keys) > 1:
+                    keys.pop(rng.randrange(len(keys)))
+            lines += ["Sort: %s %s" % (k, d) for k, d in keys]
     if opts.get("limit") and rng.random() < opts["limit"]:
         lines.append("Limit: %d" % rng.choice([0, 1, 2, 3, 5, 10, 1000]))
     if opts.get("offset") and rng.random() < opts["offset"]:
@@ -591,7 +642,22 @@ def gen_stats_query(rng, schema, ds, opts=None):
                 rest = []
                 for _ in range(rest_n):
                     rest += gen_tree(rng, schema, ds, table, cols, dict(opts, negate_p=0.1), "Stats", rng.choice([0, 0, 1]))
-                lines += shared + rest
+                lead = list(shared)
+                if rng.random() < 0.3 and lead and lead[0].startswith("Stats: ") and len(lead[0].split(" ")) >= 3:
+                    # a near miss of the shared leading term: other operator, other value, negated, or other custom variable
+                    parts = lead[0].split(" ")
+                    m = rng.choice(["op", "op", "value", "negate", "tag"])
+                    if m == "op":
+                        parts[2] = rng.choice([o for o in ["=", "!=", "<", ">", ">=", "<=", "~", "~~"] if o != parts[2]])
+                        lead[0] = " ".join(parts)
+                    elif m == "value":
+                        lead[0] = " ".join(parts[:3] + ["zz9"])
+                    elif m == "negate":
+                        lead = [lead[0], "StatsNegate:"] + lead[1:]
+                    elif m == "tag" and len(parts) >= 5:
+                        parts[3] = parts[3] + "X"
+                        lead[0] = " ".join(parts)
+                lines += lead + rest
                 lines.append("%s: %d" % (op, nshared + rest_n))
                 if rng.random() < 0.12:
                     lines.append("StatsNegate:")
